@@ -435,6 +435,24 @@ def ivp_case(col, seed, order, tname, method, variant):
                 where = "at the initial point" if xs[i] == x0 else f"at x = {xs[i]:.6g}"
                 return False, (f"d^{k}y/dx^{k} {where}: returned {rows[k][i]!r}, exact solution of the stated problem {exact[i]!r} "
                                f"(error {err:.3g} > {bound:.3g})")
+        # the returned callable is a function of its argument: a second array with the same length and the same first and last entries
+        xs2 = xs.copy()
+        xs2[1:-1] = g.uniform(lo, hi, xs.size - 2)
+        xs2[-1] = xs[-1]
+        out2 = np.asarray(sol(xs2), dtype=float)
+        rows2 = out2[None, :] if out2.ndim == 1 else out2
+        g1max2 = map_amplification(tf, xs2)
+        for k in range(rows2.shape[0]):
+            exact = prob.y.d(k, xs2)
+            bound = ivp_bound(rtol, atol, exact, k, g1max2)
+            err = float(np.max(np.abs(rows2[k] - exact)))
+            if not err <= bound:
+                i = int(np.argmax(np.abs(rows2[k] - exact)))
+                return False, (f"second evaluation of the returned callable (other points, same length and end entries): d^{k}y/dx^{k} at x = {xs2[i]:.6g}: "
+                               f"returned {rows2[k][i]!r}, exact {exact[i]!r} (error {err:.3g} > {bound:.3g})")
+        again = np.asarray(sol(xs), dtype=float)
+        if not np.array_equal(again, out, equal_nan=True):
+            return False, "evaluating the returned callable again on the first array gives different values"
         return True, None
     col.check(cid, limited(chk), inputs=inp, sample={"order": order, "transform": tname, "method": method, "variant": variant, "x_span": [x0, x1]})
 
@@ -567,6 +585,22 @@ def bvp_case(col, seed, order, tname, cond_index, variant="derivs"):
                 where = "at a boundary point" if xs[i] in ends else f"at x = {xs[i]:.6g}"
                 return False, (f"d^{k}y/dx^{k} {where}: returned {rows_out[k][i]!r}, exact solution of the stated problem {exact[i]!r} "
                                f"(error {err:.3g} > {bound:.3g})")
+        # the returned callable is a function of its argument: other interior points, same length and end entries
+        if xs.size >= 3:
+            xs2 = xs.copy()
+            lo2, hi2 = float(np.min(xs)), float(np.max(xs))
+            xs2[1:-1] = lo2 + (hi2 - lo2) * np.modf(np.abs(np.sin(1000.0 * (xs[1:-1] + 1.2345))) * 7.0)[0]
+            out2 = np.asarray(sol(xs2), dtype=float)
+            rows2 = out2[None, :] if out2.ndim == 1 else out2
+            g2 = map_amplification(tf, xs2)
+            for k in range(rows2.shape[0]):
+                exact = prob.y.d(k, xs2)
+                bound = BVP_FACTOR * tol * (1.0 + float(np.max(np.abs(exact)))) * max(1.0, cond) * max(1.0, g2) ** k
+                err = float(np.max(np.abs(rows2[k] - exact)))
+                if not err <= bound:
+                    i = int(np.argmax(np.abs(rows2[k] - exact)))
+                    return False, (f"second evaluation of the returned callable (other points, same length and end entries): d^{k}y/dx^{k} at x = {xs2[i]:.6g}: "
+                                   f"returned {rows2[k][i]!r}, exact {exact[i]!r} (error {err:.3g} > {bound:.3g})")
         return True, None
     col.check(cid, limited(chk), inputs=inp, sample={"order": order, "transform": tname, "bd_cond": [list(c) for c in bd], "variant": variant})
 
@@ -749,7 +783,10 @@ def helper_contracts(col, seed, reps):
                     yy = g.normal(size=(K, m))
                     bb = g.normal(size=(K + 1, m))
                     bb[-1] = np.where(np.abs(bb[-1]) < 0.2, 0.7, bb[-1]) * float(g.choice([-1, 1]))
-                    bb[-1, 0] *= 10.0 ** float(g.uniform(-9, -4))       # tiny but non-zero leading coefficient (e.g. a_K g'^K for a flat map)
+                    # tiny but non-zero leading coefficient (e.g. a_K g'^K for a flat map, or an equation written in small units): any magnitude
+                    bb[-1, 0] *= 10.0 ** float(g.uniform(-9, -4) if g.random() < 0.5 else g.uniform(-150, -9))
+                    if m >= 3:
+                        bb[-1, 1] *= 10.0 ** float(g.uniform(4, 150))
                     ff = g.normal(size=m)
                     yk, bk, fk = yy.copy(), bb.copy(), ff.copy()
                     got = np.asarray(rearr(yy, bb, ff), dtype=float)
